@@ -186,6 +186,7 @@ def runDict (c : Case) (m : DictModel) (emit : Nat → String → IO Unit) : IO 
         | _ => emit k "RS MODEL-FAULT"
       | _, _ => emit k "RS same"
     | "foreign" :: _ => emit k "F NULL"
+    | "badtag" :: _ => emit k "BT NULL"      -- the generator only uses tags that name no kind
     | "iopen" :: name :: what :: rest =>
       let p := unhex (rest.headD "-")
       let st : IterState :=
